@@ -9,6 +9,7 @@ import Vata.IsectBU
 import Vata.UnionModel
 import Vata.Candidate
 import Vata.ReduceModel
+import Vata.SimPipeline
 import Driver.NfaHist
 import Driver.TaHist
 import Driver.MtHist
@@ -295,6 +296,12 @@ def checkReduce (args res : List String) : Except String (Findings × String) :=
   if !nodupRules R.rules then f := f ++ ["violation duplicate rule in iteration of the result"]
   -- the L2 model of Reduce as coded (simulation matrix, RestrictToSymmetric, GetQuotientProjection, collapse, trimming):
   -- its sizes do not depend on the visiting order (`reduceModel_size_order_independent`), so they must be the implementation's
+  -- ... and the class-level pipeline (`reduceAsCoded_eq_reduceModel`, `reduceAsCoded_lang`, `reduceAsCoded_total`) must return
+  match Vata.SimPipe.reduceAsCoded A with
+  | some M' =>
+    if f.isEmpty && (M'.states.length != R.states.length || (dedupRules M'.rules).length != (dedupRules R.rules).length) then
+      f := f ++ [s!"mismatch reduce pipeline model sizes: model {M'.states.length} states / {(dedupRules M'.rules).length} rules, implementation {R.states.length} / {(dedupRules R.rules).length}"]
+  | none => f := f ++ ["mismatch reduce pipeline model returned none"]
   let M := reduceModel A A.states
   if f.isEmpty && (M.states.length != R.states.length || (dedupRules M.rules).length != (dedupRules R.rules).length) then
     f := f ++ [s!"mismatch reduce-model sizes: model {M.states.length} states / {(dedupRules M.rules).length} rules, implementation {R.states.length} / {(dedupRules R.rules).length}"]
@@ -317,6 +324,14 @@ def checkSim (args res : List String) (up : Bool) : Except String (Findings × S
     let missing := ref.filter (fun p => !rel.contains p)
     f := f ++ [s!"violation {dir}-simulation differs from the greatest one: extra={extra} missing={missing}"]
   let between := ref.length > Q.length && ref.length < Q.length * Q.length
+  -- the end-to-end model of `ComputeSimulation` as coded (fresh numbering, TranslateDownward / TranslateUpward, the ENGINE
+  -- model, `buildResult` on the matrix class, `StateDiscontBinaryRelation` read back through its dictionary;
+  -- `computeSimDown_eq/_total`, `computeSimUp_eq/_total`): must return and produce exactly the implementation's relation
+  match (if up then Vata.SimPipe.computeSimUp A n else Vata.SimPipe.computeSimDown A n) with
+  | some R =>
+    if f.isEmpty && !relEq rel R then
+      f := f ++ [s!"mismatch {dir}-simulation pipeline model differs from the implementation: only model={R.filter (fun p => !rel.contains p)} only implementation={rel.filter (fun p => !R.contains p)}"]
+  | none => f := f ++ [s!"mismatch {dir}-simulation pipeline model returned none"]
   pure (f, s!"dir={dir} between={bchar between}")
 
 def checkCompl (args res : List String) : Except String (Findings × String) := do
